@@ -567,7 +567,7 @@ Qed.
 
 (* ------------------------------------------------------------------ pausing a one-shot loses it *)
 
-Definition lost_once_ops : list op := [OScheduleOnce 0 200 10; OPause 0; OResume 0 20].
+Definition lost_once_ops : list op := [OScheduleOnce 0%nat 200 10; OPause 0%nat; OResume 0%nat 20].
 
 Lemma lost_once_witness :
   valid_run 0 lost_once_ops /\
@@ -587,8 +587,8 @@ Proof.
 Qed.
 
 Example ex_schedule_runs :
-  let ops := [OScheduleOnce 0 100 10; OSchedule 1 50 10; OTick 60; OTick 110; OComplete 0; OTick 115; OPause 1; OTick 300;
-              OResume 1 400; OTick 450; OCancel 1; OTick 600; OCancel 1; OCancel 0] in
+  let ops := [OScheduleOnce 0%nat 100 10; OSchedule 1%nat 50 10; OTick 60; OTick 110; OComplete 0%nat; OTick 115; OPause 1%nat; OTick 300;
+              OResume 1%nat 400; OTick 450; OCancel 1%nat; OTick 600; OCancel 1%nat; OCancel 0%nat] in
   valid_run 0 ops /\
   map snd (trace s0 ops) = [EOk; EOk; EOk; EOk; EOk; EOk; EOk; EOk; EOk; EOk; EOk; EOk; ENotFound; EJobNotFound] /\
   map (fun f => (f_ref f, f_run f)) (s_fired (exec s0 ops)) = [(1%nat, 60); (0%nat, 110); (1%nat, 110); (1%nat, 450)].
